@@ -11,7 +11,7 @@ import (
 
 func init() {
 	register("C18",
-		"Decides the structural premises of the lazily initialised poller pool: Pick hands out balance.Pick() only after observing status==initialized or after its own Run(), and only the winner of the uninitialized->initializing CAS runs Run(), which is followed by the transition to initialized; losers spin back to the status test; in Run every poller that was opened is stored in the new slice and its loop started (go Wait), an open error aborts and tears everything down, the shrink branch closes the surplus pollers, and the balancer receives the new slice on the success path after it was installed; SetNumLoops publishes the size before it resets the status; round-robin indices come from an atomic counter modulo the pool size. Not decided: evenness of the distribution as a value property, liveness of the loops, 'exactly that many loops' at run time.",
+		"Decides the structural premises of the lazily initialised poller pool: Pick hands out balance.Pick() only after observing status==initialized or after its own Run(), and only the winner of the uninitialized->initializing CAS runs Run(), which is followed by the transition to initialized; losers spin back to the status test; in Run every poller that was opened is stored in the new slice and its loop started (go Wait), an open error aborts and tears everything down, the shrink branch closes the surplus pollers, and the balancer receives the new slice on the success path after it was installed; SetNumLoops publishes the size before it resets the status; round-robin indices come from an atomic counter modulo the pool size. The balancer SetLoadBalance creates gets the current pool; Configure passes the zero mode on. Not decided: evenness of the distribution as a value property, liveness of the loops, 'exactly that many loops' at run time.",
 		[]string{"sync/atomic is linearizable", "reconfiguration is not concurrent with Pick (documented contract)"},
 		func(r *Run) {
 			cfgs := []string{"linux"}
